@@ -137,39 +137,51 @@ static inline void check_instance(std::vector<std::string>& bad, instance_t& p, 
     type_t ty = p.uid.get_type();
     if (!ty.unknown() && (ty.get_kind() == INSTANCE || ty.get_kind() == PROCESS_SET || ty.get_kind() == LSC_INSTANCE) && ty.size() != p.unbound) bad.push_back(n + ": type arity differs from the number of unbound parameters");
 }
-// from the symbols to the objects: whatever user object a symbol of a declaration frame carries is one of the document's listed objects
-// (a variable, function, location, branchpoint, template, instance or process), and that object's own symbol is this very symbol
-static inline void check_frame(std::vector<std::string>& bad, Document& doc, frame_t fr, declarations_t& d, template_t* t, std::list<variable_t>* locals, const std::string& where)
+// from the symbols to the objects: whatever user object a symbol of a declaration frame carries is one of the objects listed somewhere in the
+// document (a variable, function, location, branchpoint, template, instance or process), and that object's own symbol is this very symbol
+struct ListedObjects { std::vector<std::pair<void*, symbol_t>> all; void add(void* p, const symbol_t& uid) { all.push_back({p, uid}); } };
+static inline void list_decls(ListedObjects& lo, declarations_t& d)
+{
+    for (auto& v : d.variables) lo.add(&v, v.uid);
+    for (auto& f : d.functions) { lo.add(&f, f.uid); for (auto& v : f.variables) lo.add(&v, v.uid); }
+}
+static inline ListedObjects list_objects(Document& doc)
+{
+    ListedObjects lo;
+    list_decls(lo, doc.get_globals());
+    for (auto& t : doc.get_templates()) {
+        lo.add(static_cast<instance_t*>(&t), t.uid);
+        list_decls(lo, t);
+        for (auto& l : t.locations) lo.add(&l, l.uid);
+        for (auto& b : t.branchpoints) lo.add(&b, b.uid);
+    }
+    for (auto* x : doc.get_dynamic_templates()) lo.add(static_cast<instance_t*>(x), x->uid);
+    for (auto& x : doc.instances) lo.add(&x, x.uid);
+    for (auto& x : doc.lsc_instances) lo.add(&x, x.uid);
+    for (auto& x : doc.get_processes()) lo.add(&x, x.uid);
+    return lo;
+}
+static inline void check_frame(std::vector<std::string>& bad, const ListedObjects& lo, frame_t fr, bool lsc, const std::string& where)
 {
     for (size_t i = 0; i < fr.get_size(); i++) {
         symbol_t y = fr[i];
         void* p = y.get_data();
         if (p == nullptr) continue;
         bool found = false, own = false;
-        auto hit = [&](void* obj, const symbol_t& uid) { if (obj == p) { found = true; own = uid == y; } };
-        for (auto& v : d.variables) hit(&v, v.uid);
-        if (locals) for (auto& v : *locals) hit(&v, v.uid);
-        for (auto& f : d.functions) hit(&f, f.uid);
-        if (t) { for (auto& l : t->locations) hit(&l, l.uid); for (auto& b : t->branchpoints) hit(&b, b.uid); }
-        if (!t && !locals) {
-            for (auto& x : doc.get_templates()) hit(static_cast<instance_t*>(&x), x.uid);
-            for (auto* x : doc.get_dynamic_templates()) hit(static_cast<instance_t*>(x), x->uid);
-            for (auto& x : doc.lsc_instances) hit(&x, x.uid);
-            for (auto& x : doc.instances) hit(&x, x.uid);
-            for (auto& x : doc.get_processes()) hit(&x, x.uid);
-        }
-        if (!found) { if (!t || t->is_TA) bad.push_back("symbol " + where + y.get_name() + " carries a user object that is none of the document's objects"); }
+        for (auto& o : lo.all) if (o.first == p) { found = true; if (o.second == y) own = true; }
+        if (!found) { if (!lsc) bad.push_back("symbol " + where + y.get_name() + " carries a user object that is listed nowhere in the document"); }
         else if (!own) bad.push_back("symbol " + where + y.get_name() + " carries the user object of another symbol");
     }
 }
 static inline std::vector<std::string> check_document(Document& doc, bool returned_normally)
 {
     std::vector<std::string> bad;
-    check_frame(bad, doc, doc.get_globals().frame, doc.get_globals(), nullptr, nullptr, "");
-    for (auto& f : doc.get_globals().functions) if (f.body) check_frame(bad, doc, f.body->get_frame(), doc.get_globals(), nullptr, &f.variables, f.uid.get_name() + "::");
+    ListedObjects lo = list_objects(doc);
+    check_frame(bad, lo, doc.get_globals().frame, false, "");
+    for (auto& f : doc.get_globals().functions) if (f.body) check_frame(bad, lo, f.body->get_frame(), false, f.uid.get_name() + "::");
     for (auto& t : doc.get_templates()) {
-        check_frame(bad, doc, t.frame, t, &t, nullptr, t.uid.get_name() + ".");
-        for (auto& f : t.functions) if (f.body) check_frame(bad, doc, f.body->get_frame(), t, &t, &f.variables, t.uid.get_name() + "." + f.uid.get_name() + "::");
+        check_frame(bad, lo, t.frame, !t.is_TA, t.uid.get_name() + ".");
+        for (auto& f : t.functions) if (f.body) check_frame(bad, lo, f.body->get_frame(), !t.is_TA, t.uid.get_name() + "." + f.uid.get_name() + "::");
     }
     check_vars(bad, doc.get_globals().variables, "");
     for (auto& f : doc.get_globals().functions) { if (f.uid.get_data() != &f) bad.push_back("function " + f.uid.get_name() + " is not the user object of its symbol"); check_vars(bad, f.variables, f.uid.get_name() + "::"); }
